@@ -89,6 +89,9 @@ impl Quantizer {
     /// ```
     ///
     pub fn convert(&mut self, v_in: f32) -> Conversion {
+        // the input is clamped before anything else looks at it, also before the hysteresis check
+        let v_in = v_in.max(0.0_f32).min(V_MAX);
+
         // return early if vin is within the window of the last coversion plus a little hysteresis
         if self.is_allowed((self.cached_conversion.note_num % 12).into()) {
             let low_bound = self.cached_conversion.stairstep - HYSTERESIS;
@@ -99,8 +102,6 @@ impl Quantizer {
                 return self.cached_conversion;
             }
         }
-
-        let v_in = v_in.max(0.0_f32).min(V_MAX);
 
         self.cached_conversion.note_num = self.find_nearest_note(v_in);
         self.cached_conversion.stairstep = self.cached_conversion.note_num as f32 / 12.0_f32;
